@@ -40,8 +40,36 @@ func (c *Case) declared(o order) []target {
 	return seq
 }
 
-// overlapClass names the first overlapping pair of an accepted declaration order.
+// overlapClass names the first overlapping pair of an accepted declaration order: the
+// relation of the two target paths, and the way the two were declared when it is not
+// the plain AddInput / SetStaticValue.
 func (c *Case) overlapClass(o order) string {
+	seq := c.declared(o)
+	for j := 1; j < len(seq); j++ {
+		for i := 0; i < j; i++ {
+			a, b := seq[i], seq[j]
+			if !overlaps(a.Path, b.Path) {
+				continue
+			}
+			via := ""
+			for _, t := range []target{a, b} {
+				if t.Pred < 0 {
+					continue
+				}
+				switch p := c.Preds[t.Pred]; {
+				case p.Mode == mAddEnd:
+					via = "/declared-through-AddEnd"
+				case p.indirect() && via == "":
+					via = "/declared-with-no-direct-dependency"
+				}
+			}
+			return c.overlapRelation(o) + via
+		}
+	}
+	return c.overlapRelation(o)
+}
+
+func (c *Case) overlapRelation(o order) string {
 	seq := c.declared(o)
 	for j := 1; j < len(seq); j++ {
 		for i := 0; i < j; i++ {
